@@ -54,7 +54,7 @@ class C27(Prop):
     rule = ("recorder driver: two recordings through Recorder+Stream in the quick tier (MPEG-4 Video with generated GOP "
             "lengths 3..14 at 25 fps, two leading non-key frames; with AAC audio that starts 10 ms after the first key "
             "frame and arrives first - the late-key-frame case - and without audio), eight in thorough, ended by an end "
-            "marker instead of a sleep; 30 (thorough 1500) generated sample streams handed to formatFMP4Track.write: 0-2 "
+            "marker instead of a sleep; 24 (thorough 1500) generated sample streams handed to formatFMP4Track.write: 0-2 "
             "video tracks (H.264 / MPEG-4 Video) and 0-2 audio tracks (Opus / AAC), GOP 1..12, 10/25/30 fps with jitter, "
             "backward steps and gaps, track offsets up to +-1.6 s, negative timestamps, NTP jitter and drift beyond the "
             "tolerance, small max part sizes (oversize samples), ungated streams; 3 (thorough 12) of these streams again in "
